@@ -867,6 +867,8 @@ func c02(w *core.World, r *core.Report) {
 	if c != nil {
 		ruleTxnModeWiring(w, r, c)
 	}
+	r.Rule("R09.3", "inside a source transaction only EXEC requests a flush: a flush at any other command commits a resume position between MULTI and EXEC (shared with C09)", 6)
+	ruleTxnStateMachine(w, r)
 }
 
 // batcher events of one path of sendFuncOnce
@@ -1363,6 +1365,8 @@ func c09(w *core.World, r *core.Report) {
 	if c != nil {
 		ruleTxnFlushWrapped(w, r, c)
 	}
+	r.Rule("R10.3", "the key filter rejects a command only for its keys: MULTI and EXEC (no keys) always pass, or the sender never sees the brackets and cuts the transaction into batches (shared with C10)", 3)
+	ruleProjection(w, r)
 }
 
 // txnModeParam: of the sender's two boolean parameters one selects the kind of
